@@ -13,14 +13,16 @@ CLAIMED = {
             "shapes); the real Bus/Address objects are evaluated on all 2^24 addresses of LoROM and HiROM plus boundary and "
             "chained increments and TLC-enumerated .map configurations, recorded losslessly and every record judged by TLC "
             "against the same module (TraceC04). Adjunct, not relied upon: Apalache discharges the advance law symbolically "
-            "for arbitrary single ROM declarations (spec/apalache/BusApa.tla).",
+            "for arbitrary single ROM declarations (spec/apalache/BusApa.tla). A failure to declare a valid .map configuration "
+            "is an observation judged by TraceC04.",
             "Trusts TLC, the run-length recorder in harness/drivers.py and that Bus.tla states C04; ROM-bank addresses "
             "outside the window and increments leaving the mapped range are not judged."),
     "C20": ("§6 C20", "TLA+ spec (Legacy, Bus) model-checked with TLC + trace validation of the real functions over the 4 MiB range",
             "Closed forms in spec/Legacy.tla are checked against Bus by TLC (MC_C20); rom_to_snes/snes_to_rom and the "
             "pointer formulas are evaluated over every offset < 4 MiB in all three modes, recorded as affine runs and "
             "judged by TLC (TraceC20) together with the file offset the real bus of each mode gives the converted address "
-            "(must agree wherever the specified bus maps it as ROM).",
+            "(must agree wherever the specified bus maps it as ROM); before a mode is measured the other two modes are used "
+            "in the same process.",
             "Trusts TLC and the run-length recorder; quick tier judges run ends and strided interior points, thorough "
             "judges pointwise."),
 }
